@@ -14,6 +14,7 @@ DECIDED += "; R7 reference-count agreement: ref_ct starts at N, close_stream_hal
 DECIDED += "; R8 the backlog counts only live requests and never holds a request for a pair that is still in the stream table"
 DECIDED += "; R9 accept parks on the listener's Notify only on the queue-empty edge of its own pop, and every enqueue of a request notifies"
 DECIDED += '; R10 every traversal of the hosts in Sim::step takes the due messages off the links (a SYN for a host whose software has returned is refused, not parked)'
+DECIDED += '; a partition destroys every message on the link, held ones included (shared C03-R3)'
 ASSUMPTIONS = ["dropping a oneshot::Sender makes the receiver resolve with RecvError (tokio contract)"]
 
 DEQUE = "turmoil::host::ServerSocket::deque"
